@@ -209,6 +209,7 @@ def _judge(case, acc, main, d):
     eb = case["eb"]
     out = os.path.join(d, "out.cache")
     expect_reject = None
+    classes_extra = []
     stale = None
     if case.get("prior"):
         # the directory is not fresh: an earlier run of the tool (other, mostly longer payloads) used the same payload paths and the same
@@ -238,6 +239,12 @@ def _judge(case, acc, main, d):
         for j, inp in enumerate(case["inputs"]):
             ins, prs = _write_payloads(d, inp["slots"], prefix=f"i{j}")
             f = os.path.join(d, f"in{j}.cache")
+            if eb % 2 == 0:
+                # a file name is a name: "in[0].cache" is this file, not the sibling "in0.cache" that a pattern reading would match
+                decoy = f
+                f = os.path.join(d, f"in[{j}].cache")
+                main(cache_create_subcommand="from_payloads", eb_size=4, input=_write_payloads(d, [[f"decoy-{j}", 5, 1]], prefix=f"dc{j}")[0], output_file=decoy)
+                classes_extra.append("merge-input-name-with-pattern-characters")
             main(cache_create_subcommand="from_payloads", eb_size=inp["eb"], input=ins, output_file=f)
             if not os.path.exists(f):
                 raise boot.HarnessError("merge input not produced")
@@ -301,7 +308,7 @@ def _judge(case, acc, main, d):
     except Exception as e:  # rejection by the tool
         raised = e
     nt_key, branches = _nt_key(producer, eb, pairs)
-    classes = [f"producer:{producer}"] + [f"branch:{b}" for b in set(branches)] + (["prior-run-in-same-directory"] if stale is not None else [])
+    classes = [f"producer:{producer}"] + [f"branch:{b}" for b in set(branches)] + (["prior-run-in-same-directory"] if stale is not None else []) + sorted(set(classes_extra))
     if producer == "envelope-tree":
         if any(ch["deps"] for ch in case["deps"]):
             classes.append("tree:depth>=2")
@@ -530,6 +537,6 @@ def finalize(ctx, m, ev):
     ev["coverage"]["exhaustive_scope"] = "plane eb x residue x {first,later}; sequences are sampled"
     if c.get("accepted", 0) < 0.5 * m["evals"]:
         raise boot.HarnessError(f"only {c.get('accepted', 0)} of {m['evals']} cases were accepted by the tool: check is vacuous")
-    for need in ("branch:none", "branch:short", "branch:long", "negative:duplicate-uri", "producer:merge", "producer:envelope", "producer:envelope-tree", "tree:depth>=2", "tree:duplicate-across-levels", "prior-run-in-same-directory"):
+    for need in ("branch:none", "branch:short", "branch:long", "negative:duplicate-uri", "producer:merge", "producer:envelope", "producer:envelope-tree", "tree:depth>=2", "tree:duplicate-across-levels", "prior-run-in-same-directory", "merge-input-name-with-pattern-characters"):
         if not c.get(need):
             raise boot.HarnessError(f"interesting class {need} is empty")
